@@ -185,7 +185,7 @@ def run_part(ctx, quick):
         "crashes": len(rpt["crashes"]), "nondeterministic": len(rpt["nondet"]),
         "aborted_after_deaths": rpt.get("aborted_after_deaths", False),
         "known_finding_instances": known_counts,
-        "slowest": rpt["slowest"][:5],
+        "slowest": (rpt.get("slowest") or [])[:5],
         "input_distribution": rpt["input_distribution"],
         "harness_wall_s": round(rpt["wall_s"], 1), "harness_build_s": hsecs,
         "overlay": sorted(shims),
